@@ -65,7 +65,8 @@ def gen_case(seed, tier, prop="C14"):
         callers.append(calls)
     loop = LoopConfig(eager=rng.random() < 0.25, cap=30000, p_late=rng.choice([0, 0, 0.2])).to_json()
     return {"engine": "threads_to", "prop": "C14", "total": rng.choice([1, 1, 2, 3, "default"]), "callers": callers,
-            "loop": loop, "sched_seed": rng.getrandbits(32)}
+            "loop": loop, "sched_seed": rng.getrandbits(32),
+            "preempt": rng.choice([0, 0, 0, 0.03, 0.15])}
 
 
 class ToThreadRun:
@@ -352,7 +353,7 @@ class ToThreadRun:
         case = self.case
         self.sim = sim = SimRun(case["sched_seed"], LoopConfig.from_json(case["loop"]), loop_cls=BatonLoop)
         self.faults = sim.faults
-        sched = baton.begin(random.Random(f"baton:{case['sched_seed']}"), sim.faults, "loop")
+        sched = baton.begin(random.Random(f"baton:{case['sched_seed']}"), sim.faults, "loop", preempt=case.get("preempt", 0))
         snap = {}
 
         def snapshot():
@@ -412,6 +413,10 @@ def get_cancelled_exc_class_thread():
 
 
 def shrinks(case):
+    if case.get("preempt"):
+        c = copy.deepcopy(case)
+        c["preempt"] = 0
+        yield c
     for i in range(len(case["callers"])):
         if len(case["callers"]) > 1:
             c = copy.deepcopy(case)
